@@ -28,7 +28,7 @@ def run(tier):
               'up to 6 statements are written against a fresh real package tree and parsed by gin (error class, configured '
               'objects, behaviour through references, then a second file with a colliding import name and the config_str '
               'round trip); non-trivial = files with at least one applied binding')
-  res = tlc.run('MC_GinDynReg', 'MC_DynReg_quick.cfg', timeout=1500)
+  res = tlc.run('MC_GinDynReg', 'MC_DynReg_quick.cfg' if tier == 'quick' else 'MC_DynReg_thorough.cfg', timeout=3000)
   rep.add_tlc('MC_DynReg_quick', res, exhaustive=True)
   if res.violation or res.timed_out:
     raise tlc.TLCError('design-level violation of %s\n%s' % (res.violation, res.stdout[-3000:]))
@@ -38,7 +38,7 @@ def run(tier):
   cases = _cases(ex)
   seen, chosen = set(), []
   for c in cases:
-    k = core.jdump(c['doc'])
+    k = core.jdump([c['doc'], c['skip']])
     if k in seen or not c['doc']:
       continue
     seen.add(k)
